@@ -74,7 +74,11 @@ func (fst *FSTree) buildFilePath(key string, checkKeyLength bool) (string, error
 	}
 	// build filepath
 	dstPath := filepath.Join(fst.basePath, key) // Join also calls Clean()
-	if !strings.HasPrefix(dstPath, fst.basePath) {
+	// A record path must be below the base path, only a query prefix may be the
+	// base path itself. Compare with a trailing separator, so that a sibling
+	// directory that merely shares the base path as name prefix is not in scope.
+	if !strings.HasPrefix(dstPath, fst.basePath+string(filepath.Separator)) &&
+		(checkKeyLength || dstPath != fst.basePath) {
 		return "", fmt.Errorf("fstree: key integrity check failed, compiled path is %s", dstPath)
 	}
 	// return
